@@ -56,7 +56,9 @@ double Random(void)
 
 	double ret = 0.0;
 	unsigned lzs = intrinsics_clz(u_val) + 1;
-	u_val <<= lzs;
+	// lzs can be 64 (u_val == 1): shift in two steps, a single shift by the type width is undefined
+	u_val <<= lzs - 1;
+	u_val <<= 1;
 	u_val >>= 12;
 
 	uint64_t exp = 1023 - lzs;
